@@ -59,6 +59,8 @@ NUM_RANK = {"bool": 0, "int": 1, "float": 2, "decimal": 3}
 def pre_build():
     from extract import wrappers
     wrappers.generate()
+    from extract import aliasing_c11
+    aliasing_c11.generate()
 
 
 def cases(rng, tier):
@@ -133,7 +135,27 @@ def _none_with_default(case, sa, sb):
     return bool(names & (set(sa.get("nones") or []) ^ set(sb.get("nones") or [])))
 
 
+def judge_heap(case, impl, model):
+    """heap cases: correspondence of the sharing structure with Sem/AliasC11.lean + the statement on the real graph:
+    a deep / unpickled copy of an instance shares no mutable object with it (an ImmutableStructure returned as is and
+    the scratch owners of nested wrappers, reachable through `_instance` only, are not mutable state of the instance)"""
+    msg = P.correspondence(case, impl, model)
+    fails = []
+    for p in impl.get("probes", []):
+        if p["root"] != 0 or p["op"] == "copy" or "unavailable" in p or p.get("same"):
+            continue
+        for (tag, via_back, depth), path in zip(p.get("shared_tags", []), p.get("shared", [])):
+            if tag in ("ImmutableStructure", "tuple", "frozenset") or via_back:
+                continue
+            fails.append((f"copy-shares-mutable:{p['op']}:{tag}",
+                          f"the {p['op']} copy of x holds the very object x holds at {'.'.join(path)} (a {tag}): "
+                          f"class {case['cls']['name']}"))
+    return msg, fails
+
+
 def judge(case, impl, model):
+    if case.get("heap"):
+        return judge_heap(case, impl, model)
     msg = P.correspondence(case, impl, model)
     fails = []
     if "states" not in impl:
